@@ -28,6 +28,8 @@ func runC08(c *Ctx) {
 
 	c.Rule("R08f", "strip-both-ends slices cannot go out of range: for every x[a:len(x)-b] in sql/migrate the conditions enclosing it (len tests, HasPrefix/HasSuffix with constant arguments) imply len(x) >= a+b; a prefix and a suffix that can overlap in one short string do not", 1)
 
+	c.Rule("R08i", ruleTextLookBehind, 2)
+	checkLookBehind(c, "R08i")
 	c.Rule("R08h", ruleTextCallerText, 1)
 	checkCallerText(c, "R08h")
 	c.Rule("R08g", ruleTextLoopProgress, 5)
